@@ -119,9 +119,9 @@ class PPOGae(Case):
     outside = ("minibatch loop, policy/value losses, optimiser (after the capture point)",)
     site = "PPO.learn/gae"
 
-    def __init__(self, T, E, OD=1, vectorized=True, obs="box"):
-        self.T, self.E, self.OD, self.vec, self.obs = T, E, OD, vectorized, obs
-        self.name = f"ppo-gae-T{T}-E{E}-od{OD}" + ("" if vectorized else "-nonvec") + ("" if obs == "box" else f"-{obs}")
+    def __init__(self, T, E, OD=1, vectorized=True, obs="box", int_rewards=False):
+        self.T, self.E, self.OD, self.vec, self.obs, self.int_rewards = T, E, OD, vectorized, obs, int_rewards
+        self.name = f"ppo-gae-T{T}-E{E}-od{OD}" + ("" if vectorized else "-nonvec") + ("" if obs == "box" else f"-{obs}") + ("-integer-rewards" if int_rewards else "")
         self.bounds = {"T": T, "num_envs": E, "obs_dim": OD, "vectorized": vectorized, "observation_space": obs,
                        "symbolic": "rewards, values, dones, next_done, bootstrap value, log-probs, obs/action labels, gamma, gae_lambda"}
         self._agent = None
@@ -140,7 +140,7 @@ class PPOGae(Case):
         S = [mk_obs(v, f"s{t}", shp, self.obs, OD) for t in range(T)]
         AC = [v.array(f"a{t}", shp) for t in range(T)]
         LP = [v.array(f"lp{t}", shp) for t in range(T)]
-        R = [v.array(f"r{t}", shp) for t in range(T)]
+        R = [v.array(f"r{t}", shp, "int" if self.int_rewards else "real") for t in range(T)]      # (an environment may hand out integer rewards)
         D = [v.array(f"d{t}", shp, "flag") for t in range(T)]
         VA = [v.array(f"v{t}", shp) for t in range(T)]
         NS = mk_obs(v, "ns", shp, self.obs, OD)
@@ -537,7 +537,7 @@ class Minibatch(Case):
 
 
 def cases(tier):
-    cs = [Minibatch(3, 2), Minibatch(4, 4), PPOGae(3, 2), PPOGae(2, 1), PPOGae(3, 1, vectorized=False), PPOGae(1, 2),
+    cs = [Minibatch(3, 2), Minibatch(4, 4), PPOGae(3, 2), PPOGae(2, 1), PPOGae(3, 1, vectorized=False), PPOGae(1, 2), PPOGae(2, 1, int_rewards=True),
           IPPOGae(2, 2, 2), IPPOGae(2, 2, 1), IPPOGae(1, 2, 2), IPPOGae(2, 1, 2),
           IPPOGae(2, 1, 2, ids=["ag_b", "ag_a"]), IPPOGae(1, 2, 3, ids=["ag_2", "ag_10", "ag_1"]), IPPOGae(2, 2, 2, obs="tuple"), IPPOGae(2, 2, 2, obs="dict"), PPOGae(2, 2, obs="tuple"), PPOGae(2, 2, obs="dict"),
           PPOCollect(2, 2), PPOCollect(3, 1), IPPOCollect(2, 1, 2), IPPOCollect(1, 2, 2)]
